@@ -355,30 +355,184 @@ Proof.
     rewrite (N.div_mod v 256), (N.div_mod w 256) by lia. congruence.
 Qed.
 
-(* two blocks with the same bytes agree on parent, proposer, view and on the concatenation
-   batch ++ certificate bytes ++ timestamp.  (They need not be the same block: Multi.ToBytes omits the
-   signer ids, the BLS bitfield is not part of ToBytes, and batch/certificate are not framed.) *)
+Lemma app_inv_tail_len {A} (a a' b b' : list A) : length b = length b' -> a ++ b = a' ++ b' -> a = a' /\ b = b'.
+Proof.
+  intros Hl He. apply app_inv_len; auto.
+  apply (f_equal (@length A)) in He. rewrite !app_length in He. lia.
+Qed.
+
+Lemma pow256_4 : 256 ^ N.of_nat 4 = 2^32. Proof. reflexivity. Qed.
+Lemma pow256_8 : 256 ^ N.of_nat 8 = 2^64. Proof. reflexivity. Qed.
+
+Lemma le32_inj v w : v < 2^32 -> w < 2^32 -> le32 v = le32 w -> v = w.
+Proof. intros. apply (le_bytes_inj 4); auto; now rewrite pow256_4. Qed.
+Lemma le64_inj v w : v < 2^64 -> w < 2^64 -> le64 v = le64 w -> v = w.
+Proof. intros. apply (le_bytes_inj 8); auto; now rewrite pow256_8. Qed.
+
+Lemma concat_le32_length ids : length (concat (map le32 ids)) = (4 * length ids)%nat.
+Proof.
+  induction ids as [|i l IH]; [reflexivity|]. cbn [map concat length]. rewrite app_length, IH.
+  unfold le32. rewrite le_bytes_length. lia.
+Qed.
+
+Lemma concat_le32_inj ids1 ids2 :
+  Forall (fun i => i < 2^32) ids1 -> Forall (fun i => i < 2^32) ids2 ->
+  concat (map le32 ids1) = concat (map le32 ids2) -> ids1 = ids2.
+Proof.
+  revert ids2. induction ids1 as [|i l IH]; intros [|j m] F1 F2 He; auto.
+  - apply (f_equal (@length N)) in He. rewrite !concat_le32_length in He. cbn [length] in He. lia.
+  - apply (f_equal (@length N)) in He. rewrite !concat_le32_length in He. cbn [length] in He. lia.
+  - cbn [map concat] in He. inversion F1 as [|? ? Hi Fl]; inversion F2 as [|? ? Hj Fm]; subst.
+    apply app_inv_len in He as [Hij Hr]; [|unfold le32; now rewrite !le_bytes_length].
+    apply le32_inj in Hij; auto. subst. f_equal. now apply IH.
+Qed.
+
+(* the participant section can be read back from the end of a byte string *)
+Lemma participants_tail_inj (Y1 Y2 T1 T2 : bytes) ids1 ids2 :
+  length T1 = length T2 ->
+  Forall (fun i => i < 2^32) ids1 -> Forall (fun i => i < 2^32) ids2 ->
+  N.of_nat (length ids1) < 2^32 -> N.of_nat (length ids2) < 2^32 ->
+  Y1 ++ participants_bytes ids1 ++ T1 = Y2 ++ participants_bytes ids2 ++ T2 ->
+  Y1 = Y2 /\ ids1 = ids2 /\ T1 = T2.
+Proof.
+  intros HT F1 F2 L1 L2 He. unfold participants_bytes in He.
+  rewrite !app_assoc in He.
+  apply app_inv_tail_len in He as [He HTe]; auto.
+  apply app_inv_tail_len in He as [He Hn]; [|unfold le32; now rewrite !le_bytes_length].
+  apply le32_inj in Hn; auto. apply Nat2N.inj in Hn.
+  apply app_inv_tail_len in He as [HY HC]; [|rewrite !concat_le32_length; exact (f_equal (Nat.mul 4) Hn)].
+  apply concat_le32_inj in HC; auto.
+Qed.
+
+Lemma qc_sig_part_nonnil s : sig_is_nil s = false -> qc_sig_part s = sig_raw s ++ participants_bytes (sig_ids s).
+Proof. destruct s; try discriminate; reflexivity. Qed.
+
+Lemma qc_sig_part_nil s : sig_is_nil s = true -> qc_sig_part s = [].
+Proof. destruct s; try discriminate; reflexivity. Qed.
+
+Lemma participants_bytes_length ids : length (participants_bytes ids) = (4 * length ids + 4)%nat.
+Proof. unfold participants_bytes. rewrite app_length, concat_le32_length. unfold le32. rewrite le_bytes_length. reflexivity. Qed.
+
+Definition ids_ok (s : qsig) : Prop :=
+  Forall (fun i => i < 2^32) (sig_ids s) /\ N.of_nat (length (sig_ids s)) < 2^32.
+
+Lemma qc_sig_part_inj s1 s2 : ids_ok s1 -> ids_ok s2 -> qc_sig_part s1 = qc_sig_part s2 ->
+  sig_is_nil s1 = sig_is_nil s2 /\ sig_raw s1 = sig_raw s2 /\ sig_ids s1 = sig_ids s2.
+Proof.
+  intros [F1 L1] [F2 L2] He.
+  destruct (sig_is_nil s1) eqn:N1, (sig_is_nil s2) eqn:N2.
+  - destruct s1, s2; try discriminate. auto.
+  - rewrite (qc_sig_part_nil _ N1), (qc_sig_part_nonnil _ N2) in He.
+    apply (f_equal (@length N)) in He. rewrite app_length, participants_bytes_length in He. cbn [length] in He. lia.
+  - rewrite (qc_sig_part_nonnil _ N1), (qc_sig_part_nil _ N2) in He.
+    apply (f_equal (@length N)) in He. rewrite app_length, participants_bytes_length in He. cbn [length] in He. lia.
+  - rewrite (qc_sig_part_nonnil _ N1), (qc_sig_part_nonnil _ N2) in He.
+    rewrite <- (app_nil_r (participants_bytes (sig_ids s1))), <- (app_nil_r (participants_bytes (sig_ids s2))) in He.
+    apply participants_tail_inj in He as (HY & Hi & _); auto.
+Qed.
+
+(* equal certificate bytes: same view, same block hash, same nil-ness, same signature bytes and the
+   same claimed signer ids (in the scheme's enumeration order) *)
+Theorem qc_bytes_inj q1 q2 :
+  length (qc_hash q1) = 32%nat -> length (qc_hash q2) = 32%nat ->
+  qc_view q1 < 2^64 -> qc_view q2 < 2^64 -> ids_ok (qc_sig q1) -> ids_ok (qc_sig q2) ->
+  qc_bytes q1 = qc_bytes q2 ->
+  qc_view q1 = qc_view q2 /\ qc_hash q1 = qc_hash q2 /\ sig_is_nil (qc_sig q1) = sig_is_nil (qc_sig q2)
+  /\ sig_raw (qc_sig q1) = sig_raw (qc_sig q2) /\ sig_ids (qc_sig q1) = sig_ids (qc_sig q2).
+Proof.
+  intros H1 H2 V1 V2 I1 I2 He. unfold qc_bytes in He.
+  apply app_inv_len in He as [Hv He]; [|unfold le64; now rewrite !le_bytes_length].
+  apply app_inv_len in He as [Hh He]; [|congruence].
+  apply le64_inj in Hv; auto. destruct (qc_sig_part_inj _ _ I1 I2 He) as (A & B & C). auto.
+Qed.
+
+Lemma ts_nanos_lt t : ts_nanos t < 2^64.
+Proof.
+  unfold ts_nanos. pose proof (Z.mod_pos_bound (fst t * 10 ^ 9 + snd t) (2^64)%Z ltac:(reflexivity)) as Hb.
+  change (2^64) with (Z.to_N (2^64)%Z). apply Z2N.inj_lt; lia.
+Qed.
+
+(* two blocks with the same bytes agree on parent, proposer, view (fixed-width prefix) *)
 Lemma block_bytes_prefix b1 b2 :
   length (b_parent b1) = 32%nat -> length (b_parent b2) = 32%nat ->
   b_proposer b1 < 2^32 -> b_proposer b2 < 2^32 -> b_view b1 < 2^64 -> b_view b2 < 2^64 ->
   block_bytes b1 = block_bytes b2 ->
-  b_parent b1 = b_parent b2 /\ b_proposer b1 = b_proposer b2 /\ b_view b1 = b_view b2.
+  b_parent b1 = b_parent b2 /\ b_proposer b1 = b_proposer b2 /\ b_view b1 = b_view b2
+  /\ b_batch b1 ++ qc_bytes (b_cert b1) ++ le64 (ts_nanos (b_ts b1)) = b_batch b2 ++ qc_bytes (b_cert b2) ++ le64 (ts_nanos (b_ts b2)).
 Proof.
   intros L1 L2 P1 P2 V1 V2 He. unfold block_bytes in He.
   apply app_inv_len in He as [Hp He]; [|congruence].
   apply app_inv_len in He as [Hi He]; [|unfold le32; now rewrite !le_bytes_length].
   apply app_inv_len in He as [Hv He]; [|unfold le64; now rewrite !le_bytes_length].
-  repeat split; auto.
-  - unfold le32 in Hi. apply le_bytes_inj in Hi; auto.
-  - unfold le64 in Hv. apply le_bytes_inj in Hv; auto.
+  apply le32_inj in Hi; auto. apply le64_inj in Hv; auto.
 Qed.
 
-(* witness for the remark above: relabelling the signers of the certificate keeps the bytes *)
+(* the bytes of a block name the signers of its (signed) certificate, whatever the batches are *)
+Theorem block_bytes_name_signers b1 b2 :
+  sig_is_nil (qc_sig (b_cert b1)) = false -> sig_is_nil (qc_sig (b_cert b2)) = false ->
+  ids_ok (qc_sig (b_cert b1)) -> ids_ok (qc_sig (b_cert b2)) ->
+  block_bytes b1 = block_bytes b2 ->
+  sig_ids (qc_sig (b_cert b1)) = sig_ids (qc_sig (b_cert b2)) /\ ts_nanos (b_ts b1) = ts_nanos (b_ts b2).
+Proof.
+  intros N1 N2 [F1 L1] [F2 L2] He. unfold block_bytes, qc_bytes in He.
+  rewrite (qc_sig_part_nonnil _ N1), (qc_sig_part_nonnil _ N2) in He.
+  assert (Hshape : forall (p i v c qv qh r pb t : bytes),
+             p ++ i ++ v ++ c ++ (qv ++ qh ++ r ++ pb) ++ t = (p ++ i ++ v ++ c ++ qv ++ qh ++ r) ++ pb ++ t).
+  { intros. now rewrite <- !app_assoc. }
+  rewrite !Hshape in He.
+  assert (HT : length (le64 (ts_nanos (b_ts b1))) = length (le64 (ts_nanos (b_ts b2))))
+    by (unfold le64; now rewrite !le_bytes_length).
+  destruct (participants_tail_inj _ _ _ _ _ _ HT F1 F2 L1 L2 He) as (_ & Hi & Ht).
+  split; auto. apply le64_inj in Ht; auto using ts_nanos_lt.
+Qed.
+
+(* with batches of the same length (e.g. the same batch) equal bytes determine every component *)
+Theorem block_bytes_inj b1 b2 :
+  length (b_parent b1) = 32%nat -> length (b_parent b2) = 32%nat ->
+  b_proposer b1 < 2^32 -> b_proposer b2 < 2^32 -> b_view b1 < 2^64 -> b_view b2 < 2^64 ->
+  length (qc_hash (b_cert b1)) = 32%nat -> length (qc_hash (b_cert b2)) = 32%nat ->
+  qc_view (b_cert b1) < 2^64 -> qc_view (b_cert b2) < 2^64 ->
+  ids_ok (qc_sig (b_cert b1)) -> ids_ok (qc_sig (b_cert b2)) ->
+  length (b_batch b1) = length (b_batch b2) ->
+  block_bytes b1 = block_bytes b2 ->
+  b_parent b1 = b_parent b2 /\ b_proposer b1 = b_proposer b2 /\ b_view b1 = b_view b2 /\ b_batch b1 = b_batch b2
+  /\ qc_view (b_cert b1) = qc_view (b_cert b2) /\ qc_hash (b_cert b1) = qc_hash (b_cert b2)
+  /\ sig_is_nil (qc_sig (b_cert b1)) = sig_is_nil (qc_sig (b_cert b2))
+  /\ sig_raw (qc_sig (b_cert b1)) = sig_raw (qc_sig (b_cert b2)) /\ sig_ids (qc_sig (b_cert b1)) = sig_ids (qc_sig (b_cert b2))
+  /\ ts_nanos (b_ts b1) = ts_nanos (b_ts b2).
+Proof.
+  intros L1 L2 P1 P2 V1 V2 H1 H2 Q1 Q2 I1 I2 Lb He.
+  apply block_bytes_prefix in He as (Hp & Hi & Hv & He); auto.
+  apply app_inv_len in He as [Hb He]; auto.
+  apply app_inv_tail_len in He as [Hq Ht]; [|unfold le64; now rewrite !le_bytes_length].
+  apply le64_inj in Ht; auto using ts_nanos_lt.
+  apply qc_bytes_inj in Hq; auto. tauto.
+Qed.
+
+(* the encoding before the repair did not name the signers: relabelling them kept the bytes *)
 Definition relabel_b1 : block :=
   mkBlock (repeat 0 32) 1 [] (mkQC (SigECDSA [(1, [7]); (2, [8])]) 1 (repeat 0 32)) 2 (0, 0)%Z.
 Definition relabel_b2 : block :=
   mkBlock (repeat 0 32) 1 [] (mkQC (SigECDSA [(2, [7]); (1, [8])]) 1 (repeat 0 32)) 2 (0, 0)%Z.
-Lemma block_bytes_ignore_signer_labels :
-  relabel_b1 <> relabel_b2 /\ block_bytes relabel_b1 = block_bytes relabel_b2
-  /\ wf_block (fun _ => None) relabel_b1 = true /\ wf_block (fun _ => None) relabel_b2 = true.
-Proof. split; [discriminate | split; [|split]; vm_compute; reflexivity]. Qed.
+Lemma old_block_bytes_name_signers_refuted :
+  exists b1 b2, wf_block (fun _ => None) b1 = true /\ wf_block (fun _ => None) b2 = true /\
+    block_bytes_old b1 = block_bytes_old b2 /\
+    sig_ids (qc_sig (b_cert b1)) <> sig_ids (qc_sig (b_cert b2)) /\
+    block_bytes b1 <> block_bytes b2.
+Proof.
+  exists relabel_b1, relabel_b2. repeat split; try (vm_compute; reflexivity); vm_compute; discriminate.
+Qed.
+
+(* a block fetched by hash carries the certificate signers of the block that hash names *)
+Theorem fetched_block_names_signers (d : bytes -> option bytes) (H : bytes -> bytes) :
+  (forall a b, H a = H b -> a = b) -> (forall a, length (H a) = 32%nat) ->
+  forall h replies blk orig,
+    fetch_block H d h replies = Ok (Some blk) -> block_hash H orig = h ->
+    sig_is_nil (qc_sig (b_cert blk)) = false -> sig_is_nil (qc_sig (b_cert orig)) = false ->
+    ids_ok (qc_sig (b_cert blk)) -> ids_ok (qc_sig (b_cert orig)) ->
+    sig_ids (qc_sig (b_cert blk)) = sig_ids (qc_sig (b_cert orig)) /\ ts_nanos (b_ts blk) = ts_nanos (b_ts orig).
+Proof.
+  intros Hinj Hlen h replies blk orig Hf Ho N1 N2 I1 I2.
+  destruct (fetch_by_hash d H Hinj Hlen h replies blk Hf) as (_ & _ & Hb).
+  apply block_bytes_name_signers; auto.
+Qed.
